@@ -1,42 +1,44 @@
 #!/bin/bash
-# usage: seed.sh <PROP> <i>   -- confirm /tmp/mut-PROP-i.{patch,json,_demo_test.go}, run checks, store under /verif/seeded
-# Confirms: applies to /repo HEAD, builds, existing tests pass, demo fails with / passes without the change.
+# usage: seed.sh <PROP> <i>   -- confirm /tmp/mut-PROP-i.{patch,json} + demo, evaluate with all 17 checks,
+# store under /verif/seeded/PROP-i.
+# Confirms: applies to /repo HEAD, builds (with and without -tags verif), existing tests pass,
+# demo passes on the unchanged tree and fails with the change.
 export GOFLAGS=-mod=mod GOPROXY=off GOSUMDB=off GOTOOLCHAIN=local
-P=$1; I=$2; shift 2
-patch=/tmp/mut-$P-$I.patch; demo=/tmp/mut-$P-${I}_demo_test.go; meta=/tmp/mut-$P-$I.json
+P=$1; I=$2
+patch=/tmp/mut-$P-$I.patch; meta=/tmp/mut-$P-$I.json
+demo=/tmp/mut-$P-${I}_demo_test.go
 S=/var/tmp/bipverif-seed-$$; rm -rf $S; mkdir -p $S; rsync -a --exclude .git /repo/ $S/
-cp $demo $S/zz_demo_test.go
+pkgdir=.; grep -q '^package main' $demo 2>/dev/null && pkgdir=./update-wordlist
 demoname=$(grep -o 'func TestDemo[A-Za-z0-9_]*' $demo | head -1 | sed 's/func //')
-(cd $S && go test -count=1 -run "^${demoname}\$" . >/tmp/seed-clean.log 2>&1); clean=$?
+race=""; grep -q -- '-race' $meta && race="-race"
+rundemo() { cp $demo $S/$pkgdir/zz_demo_test.go; (cd $S && go test $race -count=1 -run "^${demoname}\$" $pkgdir > $1 2>&1); r=$?; rm -f $S/$pkgdir/zz_demo_test.go; return $r; }
+rundemo /tmp/seed-clean-$$.log; clean=$?
 (cd $S && patch -p1 -s < $patch) || { echo "PATCH DOES NOT APPLY"; rm -rf $S; exit 3; }
 (cd $S && go build ./... && go build -tags verif ./...) || { echo "DOES NOT COMPILE (with or without verif tag)"; rm -rf $S; exit 3; }
-rm $S/zz_demo_test.go
-(cd $S && go test -count=1 ./... >/tmp/seed-suite.log 2>&1); suite=$?
-cp $demo $S/zz_demo_test.go
-(cd $S && go test -count=1 -run "^${demoname}\$" . >/tmp/seed-mut.log 2>&1); mut=$?
-rm $S/zz_demo_test.go
+(cd $S && go test -count=1 ./... >/tmp/seed-suite-$$.log 2>&1); suite=$?
+rundemo /tmp/seed-mut-$$.log; mut=$?
 echo "confirm: demo-on-clean exit=$clean (want 0) suite-with-change exit=$suite (want 0) demo-with-change exit=$mut (want !=0)"
-if [ $clean -ne 0 ] || [ $suite -ne 0 ] || [ $mut -eq 0 ]; then echo "NOT CONFIRMED"; tail -5 /tmp/seed-clean.log /tmp/seed-suite.log /tmp/seed-mut.log; rm -rf $S; exit 4; fi
-props="$@"; [ -z "$props" ] && props="C01 C02 C03 C04 C05 C06 C07 C08 C09 C10 C11 C12 C13 C14 C15 C16 C17"
-caught=""
-for p in $props; do
-  out=$(VERIF_REPO=$S VERIF_WORK_SUFFIX=.seed$$ VERIF_NO_EVIDENCE=1 /verif/bin/bipverif check $p 2>&1); code=$?
-  nv=$(echo "$out" | grep -c '^VIOLATION'); nf=$(echo "$out" | grep '^VIOLATION' | grep -vc 'no-failing-input-found')
-  if [ $code -ne 0 ]; then caught="$caught $p($nv/$nf)"; fi
-  if [ "$p" = "$P" ]; then echo "$out" | grep -E '^VIOLATION|^bipverif' | cut -c1-220 | head -5; fi
-done
-echo "checks raising a violation (violations/with failing input):$caught"
+if [ $clean -ne 0 ] || [ $suite -ne 0 ] || [ $mut -eq 0 ]; then echo "NOT CONFIRMED"; tail -5 /tmp/seed-clean-$$.log /tmp/seed-suite-$$.log /tmp/seed-mut-$$.log; rm -rf $S /tmp/seed-*-$$.log; exit 4; fi
+VERIF_REPO=$S VERIF_WORK_SUFFIX=.seed$$ /verif/bin/bipverif matrix -replay $P > /tmp/seed-matrix-$$.log 2>&1
+grep '^MATRIX' /tmp/seed-matrix-$$.log | cut -c1-300
 d=/verif/seeded/$P-$I; mkdir -p $d; cp $patch $d/patch.diff; cp $demo $d/demo_test.go
-python3 - "$meta" "$d/meta.json" "$P" "$I" "$caught" <<'PY'
-import json,sys
-src,dst,P,I,caught=sys.argv[1:6]
+python3 - "$meta" "$d/meta.json" "$P" "$I" "$race" "$pkgdir" /tmp/seed-matrix-$$.log <<'PY'
+import json,sys,re
+src,dst,P,I,race,pkgdir,log=sys.argv[1:8]
+out=open(log).read()
 m=json.load(open(src))
-c=[x.split('(')[0] for x in caught.split()]
-out={"id":f"{P}-{I}","property":P,"summary":m.get("summary",""),"needs":m.get("needs",""),"origin":"independent sub-agent given only the property text and a scratch worktree",
- "confirmed":"applies to /repo HEAD; go build (with and without -tags verif) ok; existing suite passes; demo passes on the unchanged tree and fails with the change (tools/seed.sh)",
- "demo_cmd":"cp demo_test.go <tree>/zz_demo_test.go && go test -run TestDemo .","checks_raising_violation":c,"detail":caught.strip(),
+rows={}
+for l in out.split('\n'):
+    mm=re.match(r'MATRIX (C\d+) violations=(\d+) with-input=(\d+) :: (.*)',l)
+    if mm: rows[mm.group(1)]={"violated_obligations":int(mm.group(2)),"with_failing_input":int(mm.group(3)),"first":mm.group(4)[:300]}
+c=sorted(rows)
+res={"id":f"{P}-{I}","property":P,"summary":m.get("summary",""),"needs":m.get("needs",""),
+ "origin":"independent sub-agent given only the property text and a scratch worktree of /repo without the verif files",
+ "confirmed":"tools/seed.sh: patch applies to /repo HEAD; go build with and without -tags verif; existing suite passes with the change; demo passes on the unchanged tree and fails with the change",
+ "demo_cmd":f"cp demo_test.go <tree>/{pkgdir}/zz_demo_test.go && go test {race} -count=1 -run TestDemo {pkgdir}",
+ "checks_raising_violation":c,"detail":rows,
  "expect_properties":[P] if P in c else [],"status":"caught" if P in c else "MISSED"}
-json.dump(out,open(dst,"w"),indent=1)
-print(out["status"], c)
+json.dump(res,open(dst,"w"),indent=1)
+print("RESULT",P+"-"+I,res["status"],",".join(c), "target-with-input="+str(rows.get(P,{}).get("with_failing_input",0)))
 PY
-rm -rf $S /verif/work/*.seed$$ /verif/replays.seed$$
+rm -rf $S /verif/work/*.seed$$ /verif/replays.seed$$ /tmp/seed-*-$$.log
